@@ -163,9 +163,28 @@ class Runner:
         SIM.constructing = tag
         ent.pop("sm", None)
         try:
-            sm = cls(model, **kw) if model is not None else cls(**kw)
+            if op.get("mixin"):
+                model = getattr(mod, p["name"] + "_model")()
+                sm = model.statemachine
+                ent["model"] = model
+                ent["mixin"] = True
+                model.__dict__["_sim_tag"] = tag
+                model.__dict__["_sim_role"] = "model"
+                SIM.models[tag] = model
+            else:
+                sm = cls(model, **kw) if model is not None else cls(**kw)
         finally:
             SIM.constructing = None
+        if op.get("bind"):
+            class _Target:
+                pass
+
+            ent["target"] = _Target()
+            with warnings.catch_warnings():
+                warnings.simplefilter("ignore")
+                sm.bind_events_to(ent["target"])
+        if op.get("custom_attr"):
+            sm.custom_attr = {"n": [tag, 1]}
         sm._sim_tag = tag
         sm._sim_role = "machine"
         if model is None:
@@ -198,8 +217,62 @@ class Runner:
             raise HarnessError(f"{ev} not in sm.allowed_events")
         raise HarnessError(f"unknown style {style}")
 
+    def do_noop(self, op):
+        return None
+
+    def snapshot(self, tag):
+        ent = self.objs[tag]
+        sm = ent["sm"]
+        mo = ent.get("model") if ent.get("model") is not None else sm.model
+        from statemachine import registry
+
+        snap = {
+            "dict_keys": sorted(k for k in sm.__dict__ if k != "_states_for_instance"),
+            "model_is": id(sm.model),
+            "field": enc(getattr(mo, ent["field"], None)),
+            "listeners": [id(x) for x in getattr(sm, "_listeners", {})],
+            "allow": sm.allow_event_without_transition,
+            "state_field": sm.state_field,
+            "start_value": enc(sm.start_value),
+            "class_attrs": sorted(vars(type(sm))),
+            "cb_records": sum(1 for r in SIM.trace if r["k"] == "cb+"),
+            "registry": len(registry._REGISTRY),
+            "model_keys": sorted(getattr(mo, "__dict__", {})),
+        }
+        return snap
+
     def do_send(self, op):
-        sm = self.objs[op["inst"]]["sm"]
+        ent = self.objs[op["inst"]]
+        sm = ent["sm"]
+        if op.get("garbage"):
+            before = self.snapshot(op["inst"])
+            try:
+                return self._trigger(sm, op)
+            finally:
+                after = self.snapshot(op["inst"])
+                diff = sorted(k for k in before if before[k] != after[k])
+                if before["field"] is None:
+                    # a not-yet-activated (async) machine is activated by its first send, whatever it
+                    # is: the field is written and the initial state's enter callbacks run
+                    diff = [k for k in diff if k not in ("field", "cb_records")]
+                SIM.rec(k="snap", n=SIM.epoch, name=op["event"], same=not diff, diff=diff)
+        style = op.get("style", "send")
+        if style == "bound" and ent.get("target") is not None:
+            args = [dec(a) for a in (op.get("args") or [])]
+            return getattr(ent["target"], op["event"])(*args, **dec(op.get("kwargs") or {}))
+        if style == "mixin" and ent.get("mixin"):
+            args = [dec(a) for a in (op.get("args") or [])]
+            return getattr(ent["model"], op["event"])(*args, **dec(op.get("kwargs") or {}))
+        if style == "allowed":
+            try:
+                names = [e.id for e in sm.allowed_events]
+            except Exception:
+                names = []  # async machine not activated yet: there is no current state to ask
+            if op["event"] not in names:
+                SIM.stats["style_fallback"] = SIM.stats.get("style_fallback", 0) + 1
+                op = dict(op, style="send")
+        if style in ("bound", "mixin"):
+            op = dict(op, style="send")
         return self._trigger(sm, op)
 
     def do_activate(self, op):
